@@ -20,7 +20,7 @@ Init == l = 1 /\ g = [srcs |-> <<>>, pools |-> <<>>, stmts |-> <<>>] /\ inv = [a
 RootSeq(gg) == LET RECURSIVE R(_) R(i) == IF i > Len(gg.stmts) THEN <<>> ELSE SelectSeq(gg.stmts[i].outs \o gg.stmts[i].iouts, LAMBDA o : o \in RootOuts(gg)) \o R(i + 1) IN R(1)
 FnOf(q, key) == [x \in {q[i][key] : i \in DOMAIN q} |-> q[CHOOSE i \in DOMAIN q : q[i][key] = x]]
 
-Dyn(gg) == \E i \in DOMAIN gg.stmts : gg.stmts[i].dd # "" \/ "hsel" \in DOMAIN gg.stmts[i]    \* (header-switch statements are Ref-level only)
+Dyn(gg) == \E i \in DOMAIN gg.stmts : gg.stmts[i].dd # "" \/ "hsel" \in DOMAIN gg.stmts[i] \/ "split" \in DOMAIN gg.stmts[i]    \* (header-switch statements are Ref-level only)
 Step ==
   /\ l <= Len(Tr)
   /\ l' = l + 1
